@@ -11,8 +11,8 @@ RULE = ("S-syn listings with planted runs of identical instructions and repeated
         "with operands and for $and/$or/$not/$and_any_order groups, also $or groups with times inside operand lists), bounds chosen at the edges of the planted run "
         "(r-1, r, r+1); deterministic group probes (r alternating repetitions of a two-instruction group of every kind, framed by "
         "markers, bounds around r); an exhaustive bounds grid, identical at every seed (8 element kinds x run length 0..4 x every integer / {min,max} / "
-        "min-only / max-only form with bounds <= 5; a nested-times stratum (a repeated group around one repeated element, any-order groups with times whose "
-        "members have variable length), judged by R-dsl; ground truth by construction: found iff min <= r <= max, the hit covering the whole run). Two oracles per execution: (1) R-dsl differential on found / leftmost start / hit windows; "
+        "min-only / max-only form with bounds <= 5, ground truth by construction: found iff min <= r <= max, the hit covering the whole run); a nested-times "
+        "stratum (a repeated group around one repeated element, any-order groups with times whose members have variable length), judged by R-dsl. Two oracles per execution: (1) R-dsl differential on found / leftmost start / hit windows; "
         "(2) model-free twin: the same rule with every top-level repeated element written out n times (or as an $or of the "
         "written-out lengths when max-min<=3), executed on the real code and compared on verdict and first address. "
         "Non-trivial = model finds the rule or the case is one mutation from a found case; distinct = (rule, listing).")
